@@ -6,6 +6,26 @@ VERIF = os.path.dirname(os.path.dirname(os.path.abspath(__file__)))
 
 # id -> (level category, technique, level text, level note, design ref)
 CHECKS = {
+    "C02": ("fault_enumeration",
+            "exhaustive single-fault enumeration (every bit flip / truncation / extension) x every opening entry point; oracle Err + libsodium also rejects",
+            "For each enumerated message length every single-bit corruption of tag, ciphertext, nonce, symmetric/precomputed/stream key, sealed-box ephemeral key, stream header and AD, every truncation and an extension family is applied to an authentic libsodium-made message and presented to every dryoc opener (classic and object API); each must return Err, the control Ok(original).",
+            "Keys/nonces/messages are seeded samples; forgery probability 2^-128; libsodium is the reference for 'tampered' (faults it accepts are excluded and counted).",
+            "DESIGN.md §3 C02"),
+    "C07": ("exploration",
+            "enumeration of every input length 0..=1100 x content classes; Poly1305 operands solved with big integers; 3-way differential dryoc = libsodium = spec model; bit-flip rejection for verify",
+            "Every length 0..=1100 for each primitive (all block-size residues), the full BLAKE2b digest x key grid at block-boundary lengths, constructed Poly1305 carry cases (accumulator on 0..6, p-k, 2^k boundaries, s wrapping), HSalsa20/HChaCha20 with custom constants, increment carry chains; compared against two independent references.",
+            "Trusts libsodium and the harness models (each pinned by published vectors at start-up; a model KAT failure exits 2). Sampled keys; BLAKE2b counter carry past 2^64 out of reach.",
+            "DESIGN.md §3 C07"),
+    "C08": ("exploration",
+            "exhaustive 2-way / 3-way split enumeration + proptest random k-way partitions with shrinking; oracle = one-shot (dryoc and libsodium)",
+            "Every 2-way split of every length up to the tier bound, every 3-way split for the 16-byte buffer and every boundary-adjacent 3-way split for the 128-byte buffers (unrestricted in thorough), random k-way partitions with empty pieces of messages up to 8 KiB; incremental result must equal the one-shot of both dryoc and libsodium.",
+            "Reference is libsodium's one-shot on the concatenation; partitions beyond the enumerated bounds are sampled.",
+            "DESIGN.md §3 C08"),
+    "C17": ("fault_enumeration",
+            "C02's exhaustive single-fault family over every classic open that writes a caller buffer; oracle: buffer unchanged-or-zero, tag output untouched",
+            "Sentinel-filled caller buffers (or the in-place ciphertext) and a sentinel tag variable are inspected after every faulted open; on Err they must be byte-identical to before or all zero. A reference-computed ciphertext XOR keystream identifies a leak in the report.",
+            "Object API exposes only Result; sentinel collision probability negligible; same sampling limits as C02.",
+            "DESIGN.md §3 C17"),
     "C12": ("exploration",
             "enumeration of all lengths x id table + proptest random cases; differential vs libsodium and a BLAKE2b spec model; metamorphic distinctness",
             "Every subkey length 0..=80 is enumerated against the full id table for seeded keys/contexts and compared byte-for-byte with libsodium and an RFC 7693 model; random (key,ctx,id,len) cases add breadth. A counter-example would be a concrete (key,ctx,id,len).",
